@@ -143,9 +143,12 @@ def run(ctx: Context) -> None:
     ctx.rule('R01.4', "keys of grid_dimensions equal grid_kinds under the same guards; the default kind is one of them", floor=6)
     ctx.rule('R01.5', "wind_index substitutes the default kind only when the argument is None", floor=1)
     ctx.rule('R01.6', "each grid kind is bound to its own dimensions", floor=4)
+    ctx.rule('R01.7', "calls between repository functions in the anchored files pass positional arguments to the parameters of the same name (no swapped latitude/longitude, kind/index ...)", floor=20)
     ctx.assume("numpy.ravel_multi_index / unravel_index with equal shape, order='C', mode='raise' are mutually inverse on [0, prod(shape)) and raise outside it")
     ctx.assume("xarray Dataset.sizes reports the dimension lengths of the file")
 
+    from .common import swapped_argument_obligations
+    swapped_argument_obligations(ctx, 'R01.7')
     concrete = [c for c in p.concrete_classes(base)]
     ctx.require(len(concrete) >= 5, f"expected >= 5 concrete DimensionConvention classes, found {len(concrete)}")
 
@@ -459,6 +462,7 @@ VARIANTS = [
     V('C01', 'ugrid-edge-uses-node-dim', _U, "            dimensions[UGridKind.edge] = [self.topology.edge_dimension]", "            dimensions[UGridKind.edge] = [self.topology.node_dimension]", 'R01.6'),
     V('C01', 'always-default-kind', _B, "        if grid_kind is None:\n            grid_kind = self.default_grid_kind\n        shape = self.grid_shape[grid_kind]\n        indexes", "        grid_kind = self.default_grid_kind\n        shape = self.grid_shape[grid_kind]\n        indexes", 'R01.5'),
     V('C01', 'shoc-table-missing-kind', 'src/emsarray/conventions/shoc.py', "        ArakawaCGridKind.node: ('y_grid', 'x_grid'),\n", "", 'R01.4'),
+    V('C01', 'topology-args-positional-swapped', _G, "            topology = self.topology_class(\n                self.dataset, latitude=latitude, longitude=longitude)", "            topology = self.topology_class(\n                self.dataset, latitude, longitude)", 'R01.7'),
     # benign
     V('C01', 'benign-ugrid-pack-last', _U, "        return (grid_kind, indexes[0])", "        return (grid_kind, indexes[-1])", None),
     V('C01', 'benign-explicit-mode', _B, "        return int(numpy.ravel_multi_index(indexes, shape))", "        return int(numpy.ravel_multi_index(indexes, shape, mode='raise', order='C'))", None),
